@@ -288,6 +288,8 @@ FIXED = [
      'dedicated': True, 'recycle': 3, 'timeout': 0.3, 'keep': True, 'consume': 'full'},
     {'ids': ['r0', 'r1', 'r2'], 'script': {'r0': 'hang', 'r1': 'exit', 'r2': 'equal'},
      'dedicated': True, 'recycle': 1, 'timeout': 0.2, 'keep': False, 'consume': 'full'},
+    {'ids': ['r0', 'r1', 'r2', 'r3'], 'script': {'r0': 'equal', 'r1': 'dies_after_giveup', 'r2': 'equal', 'r3': 'different'},
+     'dedicated': True, 'recycle': 3, 'timeout': 0.3, 'keep': True, 'consume': 'full'},
 ]
 
 
